@@ -323,4 +323,30 @@ theorem result_unique (P : Aug → Prop) (v0 : View) (f1 f2 : View) (u1 u2 : Aug
   refine ⟨fun l d => by rw [hf1, hf2]; exact hA l d, fun a => ?_⟩
   rw [hu1, hu2, hB a]
 
+/-- A run can be extended at its end. -/
+theorem valid_snoc (P : Aug → Prop) (v : View) (pre : List Aug) (a : Aug) (hv : Valid P v pre) (hP : P a)
+    (hn : a ∉ pre) (happ : a.Applicable (after v pre)) (hcol : ¬ a.Collides (after v pre)) :
+    Valid P v (pre ++ [a]) := by
+  induction pre generalizing v with
+  | nil => exact ⟨hP, happ, hcol, by simp, trivial⟩
+  | cons c pre ih =>
+    obtain ⟨hcP, hca, hcc, hcn, hrest⟩ := hv
+    refine ⟨hcP, hca, hcc, ?_, ?_⟩
+    · intro hm
+      rcases List.mem_append.mp hm with h | h
+      · exact hcn h
+      · simp only [List.mem_singleton] at h
+        exact hn (h ▸ List.mem_cons_self)
+    · exact ih (graft v c) hrest (fun h => hn (List.mem_cons_of_mem _ h)) happ hcol
+
+theorem viewOf_prefixClosed (f : Forest) : PrefixClosed (viewOf f) := by
+  intro t p r ⟨d, e, he, _⟩
+  unfold nodeAt at he
+  cases hroot : f.tree? t with
+  | none => simp [hroot] at he
+  | some root =>
+    simp only [hroot, Option.bind_some] at he
+    obtain ⟨y, hy, _⟩ := walk_prefix he
+    exact ⟨nodeData y.d, y, by simp [nodeAt, hroot, hy], rfl⟩
+
 end Goyang.Lemmas.AugmentConfl
